@@ -5,3 +5,7 @@ package nodis
 // verifPoint marks a point of interest for the verification harness; without the verif build tag
 // it does nothing.
 func verifPoint(id string) {}
+
+// verifTrace reports a step of the locking protocol to the verification harness; without the
+// verif build tag it does nothing.
+func verifTrace(ev string, who any, key string, m *metadata, flag bool) {}
